@@ -116,7 +116,6 @@ instance : SafePred NoNew where
   fixBr := by
     intro s hs hp
     exact hs (infix_fixBr (by decide) (by decide) (by decide) (by decide) hp)
-  notNew := fun h => h (List.infix_refl _)
 
 /-- the character-level predicate implies the substring one -/
 theorem NoNew_of_NoW {s : Str} (h : NoW s) : NoNew s := fun hp => h (hp.subset (by decide))
